@@ -191,6 +191,30 @@ def rearrange_cases(ctx):
                   sig_extra={"spacing_ge_6": s >= 6.0})
 
 
+def same_arguments_on_two_layouts(ctx):
+    """the very same argument objects handed to a library move on two different layouts in one process, and on the first
+    layout again: each call must be executable on ITS layout (nothing may be remembered from the other one)"""
+    from bloqade.shuttle.stdlib.layouts import single_col_zone, two_col_zone
+    args = (I([0, 2]), I([0]), I([1, 3]), I([1]))
+    for (a, b) in (((3, 2, 10.0, 2.0), (3, 2, 14.0, 2.0)), ((3, 2, 8.0, 2.5), (2, 2, 10.0, 2.0))):
+        for params in (a, b, a):
+            S = two_col_zone.get_spec(*params)
+            zone = S.layout.static_traps["traps"]
+            src = [(F(zone.x_positions[i]), F(zone.y_positions[j])) for i in (0, 2) for j in (0,)]
+            dst = [(F(zone.x_positions[i]), F(zone.y_positions[j])) for i in (1, 3) for j in (1,)]
+
+            def end(before, src=src, dst=dst):
+                m = dict(zip(src, dst))
+                return {at: m.get(p, p) for p, at in before.items()}
+            judge(ctx, "two_col_zone.rearrange", f"layout {params} src=([0, 2],[0]) dst=([1, 3],[1]) [same argument objects as on another layout]",
+                  S, two_col_zone.rearrange, args, True, end, sig_extra={"spacing_ge_6": params[2] >= 6.0})
+    cargs = (I([0]), I([0]), I([1]), I([1]))
+    for params in ((3, 2, 10.0), (3, 2, 4.0), (3, 2, 10.0)):
+        S = single_col_zone.get_spec(*params)
+        judge(ctx, "single_col_zone.cz_move", f"layout {params} ctrl=([0],[0]) qarg=([1],[1]) [same argument objects as on another layout]",
+              S, single_col_zone.cz_move, cargs, True, lambda before: {a: p for p, a in before.items()})
+
+
 def waypoint_cases(ctx):
     from bloqade.shuttle.stdlib.layouts import single_col_zone
     from bloqade.shuttle.stdlib import waypoints
@@ -299,6 +323,7 @@ def run(ctx):
                 "compared with the documentation; non-trivial = distinct valid calls that are executable and end where documented")
     cz_cases(ctx)
     rearrange_cases(ctx)
+    same_arguments_on_two_layouts(ctx)
     waypoint_cases(ctx)
     gemini_cases(ctx)
     # ---- the Gallina simulator on the same paths ----
